@@ -419,6 +419,22 @@ func independenceScenario(seed int64, idx int, variant string) {
 	if !waitSubs(srv, wantN) {
 		r.Violation("independence:registration-or-removal-stuck:"+variant, w(map[string]interface{}{"subscriptions": srv.VerifSubscriptionCount(), "expected": wantN}))
 	}
+	if variant == "disconnect-clean" {
+		// the remaining subscribers and the newcomer must keep receiving exactly what matches
+		time.Sleep(5 * time.Millisecond) // let the newcomer's registration settle
+		var pubs2 [][]byte
+		var ems2 []emitter
+		for i := 0; i < 4; i++ {
+			e := universe[rng.Intn(len(universe))]
+			b := mkVAA(rng, e, uint64(idx)*1000+500+uint64(i))
+			if blocked, _ := publishWD(srv, b, 5*time.Second); blocked {
+				break
+			}
+			pubs2, ems2 = append(pubs2, b), append(ems2, e)
+		}
+		checkDelivery("independence-after-resubscribe", subs, append(append([][]byte{}, pubs...), pubs2...), append(append([]emitter{}, ems...), ems2...), map[int]bool{0: true}, map[string]interface{}{"variant": variant})
+		checkDelivery("independence-newcomer", []*sub{ns}, pubs2, ems2, nil, map[string]interface{}{"variant": variant})
+	}
 	ns.st.cancel()
 	for _, s := range subs[1:] {
 		s.st.cancel()
